@@ -440,3 +440,69 @@ def char_cast_area(chk, db, files, rule="CHARCAST"):
                               "wider character type the high bits are dropped, so distinct characters compare equal / order wrongly" % (
                                   astx.loc(f, x), astx.show(x, 50), x.get("ty"), " && ".join(conds) or "no condition"), {"where": astx.loc(f)})
     return n
+
+
+# ---- VISITCAT ------------------------------------------------------------------------------------------------------------------
+def check_visit_category(f):
+    """None when f hands no generic lambda to visit_with_index that calls f's own forwarded callable; else [(node, ok, msg)]:
+    every `p.value()` argument of that call (p a by-value proxy parameter of the lambda) reads through the rvalue accessor
+    (`etl::move(p).value()`), the only one that forwards the visited variant's value category; `value() const&` always yields
+    an lvalue, so an rvalue variant would reach the visitor as an lvalue (std::visit forwards)."""
+    if f.get("body") is None:
+        return None
+    fwd = set(p["n"] for p in f["params"] if (p.get("ty") or "").replace(" ", "").endswith("&&") and not (p.get("ty") or "").endswith("..."))
+    out = []
+    seen = False
+    for x in astx.all_exprs(f, into_lambdas=False):
+        if x.get("k") != "call" or astx.callee(x)[0] != "visit_with_index":
+            continue
+        for a in x["a"]:
+            if a is None or a.get("k") != "lambda":
+                continue
+            lps = set(p["n"] for p in a.get("params", []) if (p.get("ty") or "").startswith("auto") and "&" not in (p.get("ty") or ""))
+            if not lps or a.get("body") is None:
+                continue
+            for c in astx.walk_stmt_exprs(a["body"]):
+                if c.get("k") != "call":
+                    continue
+                fn = astx.strip_casts(c["f"])
+                is_fwd = (fn is not None and fn.get("k") == "call" and astx.callee(fn)[0] == "forward" and any(
+                    y.get("k") == "ref" and y.get("n") in fwd for y in astx.walk_expr(fn))) or \
+                    (fn is not None and fn.get("k") == "ref" and fn.get("n") in fwd)
+                if not is_fwd:
+                    continue
+                for arg in c["a"]:
+                    g = arg["e"] if arg is not None and arg.get("k") == "pack" else arg
+                    g = astx.strip_casts(g)
+                    if g is None or g.get("k") != "call" or (g.get("f") or {}).get("k") != "mem" or g["f"].get("n") != "value":
+                        continue
+                    recv = astx.strip_casts(g["f"].get("b"))
+                    if recv is None:
+                        continue
+                    names = [y["n"] for y in astx.walk_expr(recv) if y.get("k") == "ref" and y.get("n") in lps]
+                    if not names:
+                        continue
+                    seen = True
+                    moved = recv.get("k") == "call" and astx.callee(recv)[0] in ("move", "forward")
+                    out.append((g, moved, "`%s` reads the proxy `%s` through the lvalue accessor: the alternative reaches the visitor as an "
+                                "lvalue even when the variant was an rvalue (std::visit forwards the value category; `etl::move(%s).value()` does)"
+                                % (astx.show(g, 50), names[0], names[0])))
+    return out if seen else None
+
+
+def visit_category_area(chk, db, prefixes, rule="VISITCAT"):
+    n = 0
+    for f in db.funcs:
+        if not any(f["file"].startswith(p) for p in prefixes):
+            continue
+        r = check_visit_category(f)
+        if r is None:
+            continue
+        n += 1
+        construct = astx.sig(f)
+        chk.instance(rule)
+        chk.obligation(rule, construct, all(ok for _g, ok, _m in r))
+        for g, ok, msg in r:
+            if not ok:
+                chk.violation(rule, construct, "category-lost", "%s: %s" % (astx.loc(f, g), msg), {"where": astx.loc(f)})
+    return n
